@@ -595,7 +595,8 @@ func (x *sx) pre(f []string) bool {
 		}
 		for _, c := range e.syncChain {
 			if c.same(&vBlk{N: verifh.U(f[1]), P: verifh.U(f[2]), H: verifh.U(f[3]), Inv: f[4] == "1"}) {
-				return true
+				// the blocks target+1..tip must still be in the index (retention)
+				return x.window == 0 || e.lastAcc.H-c.H <= x.window
 			}
 		}
 		return false
@@ -1049,7 +1050,7 @@ func (x *sx) run(line string) string {
 			res = "err:other"
 		}
 	case "health":
-		details, _ := vm.HealthCheck(x.ctx)
+		details, herr := vm.HealthCheck(x.ctx)
 		m := details.(map[string]any)
 		rd, _ := m[vmReadinessHealthChecker].(bool)
 		un := "none"
@@ -1058,7 +1059,12 @@ func (x *sx) run(line string) string {
 			unN = v.(int)
 			un = strconv.Itoa(unN)
 		}
-		res = fmt.Sprintf("ready=%s unresolved=%s", b01(rd), un)
+		res = fmt.Sprintf("ready=%s unresolved=%s err=%s notready=%s unres=%s", b01(rd), un, b01(herr != nil),
+			b01(errors.Is(herr, errVMNotReady)), b01(errors.Is(herr, errUnresolvedBlocks)))
+		// oracle: the verdict itself — an error exactly while not ready or some block is unresolved
+		if (herr != nil) != (!vm.ready || unN > 0) || errors.Is(herr, errVMNotReady) != !vm.ready || errors.Is(herr, errUnresolvedBlocks) != (unN > 0) || rd != vm.ready {
+			x.violation("health-verdict-mismatch", "HealthCheck err=%v with ready=%v unresolved=%s", herr, vm.ready, un)
+		}
 		if x.failedSet != nil {
 			want := 0
 			for n := range x.failedSet {
@@ -1069,7 +1075,7 @@ func (x *sx) run(line string) string {
 			if want > 0 {
 				x.feat(x.r, "unresolved>0")
 			}
-			if want > 0 && unN <= 0 {
+			if want > 0 && (unN <= 0 || herr == nil) {
 				x.violation("healthy-with-unrejected-invalid-block", "%d failed processing blocks not rejected, health reports %s", want, un)
 			} else if want == 0 && unN > 0 {
 				x.violation("unhealthy-forever", "every failed processing block has been rejected but health still reports %s unresolved", un)
@@ -1305,13 +1311,18 @@ func (g *vGen) initLine() string {
 	// behaviour of vacuously verified blocks belongs to the lifecycle too)
 	g.sync = g.c21 || rn.Intn(6) == 0
 	if g.sync {
-		w = []uint64{0, 50000}[rn.Intn(2)]
+		w = []uint64{0, 50000, uint64(2 + rn.Intn(7)), uint64(2 + rn.Intn(3))}[rn.Intn(4)]
 		if rn.Intn(4) == 0 {
 			ready = 0
 		}
 	}
 	g.nextN = 100
-	g.gBlk = &vBlk{N: 100, P: 99, H: 0}
+	// the initial block is usually the genesis, sometimes a later block (restart / fresh index above the window)
+	gh := uint64(0)
+	if rn.Intn(4) == 0 {
+		gh = uint64(1 + rn.Intn(12))
+	}
+	g.gBlk = &vBlk{N: 100, P: 99, H: gh}
 	g.step, g.phase, g.tail, g.did2 = 0, 0, nil, false
 	g.budget = 10 + rn.Intn(50)
 	g.syncAt = rn.Intn(6)
@@ -1319,7 +1330,7 @@ func (g *vGen) initLine() string {
 	if ready == 0 {
 		g.syncAt = -1
 	}
-	return fmt.Sprintf("init %d %d %d 100 99 0 %d", c, p, w, ready)
+	return fmt.Sprintf("init %d %d %d 100 99 %d %d", c, p, w, gh, ready)
 }
 
 func blkLine(op string, b *vBlk) string {
@@ -1399,6 +1410,15 @@ func (g *vGen) next(x *sx) string {
 			t := e.syncChain[rn.Intn(len(e.syncChain))]
 			if rn.Intn(3) == 0 {
 				t = e.syncChain[len(e.syncChain)-1]
+			}
+			if x.window != 0 && e.lastAcc.H-t.H > x.window && rn.Intn(10) > 0 {
+				// target+1..tip must still be indexed; 1 in 10 keeps the out-of-retention target (flagged !eng)
+				for _, c := range e.syncChain {
+					if e.lastAcc.H-c.H <= x.window {
+						t = c
+						break
+					}
+				}
 			}
 			st := []uint64{}
 			for i := rn.Intn(3); i > 0; i-- {
@@ -1619,6 +1639,13 @@ var corpusC21 = []string{
 	// KNOWN FINDING witness: finish between the two rejects of a transitive rejection -> fatal error, never ready
 	"init 2 2 0 100 99 0 1", "start 100 99 0 0", "parse 101 100 1 0", "verify 2", "parse 102 101 2 0", "verify 3", "parse 103 100 1 0", "verify 4",
 	"accept 4", "reject 2", "finish 103 100 1 0 103", "health", "cila", "last",
+	// finite index window: more than `window` blocks accepted while syncing, finish at the original target:
+	// target+1 was pruned, reprocessing fails (outside EngineOK's retention condition: flagged !eng)
+	"init 2 2 2 100 99 0 1", "start 100 99 0 0", "parse 101 100 1 0", "verify 2", "accept 2", "parse 102 101 2 0", "verify 3", "accept 3",
+	"parse 103 102 3 0", "verify 4", "accept 4", "geth 1", "finish 100 99 0 0 100", "health", "cila",
+	// same window, target within retention
+	"init 2 2 2 100 99 5 1", "start 100 99 5 0", "parse 101 100 6 0", "verify 2", "accept 2", "parse 102 101 7 0", "verify 3", "accept 3",
+	"parse 103 102 8 0", "verify 4", "accept 4", "geth 6", "finish 101 100 6 0 101", "health", "cila", "geth 5",
 	// restart mid-sync (not ready at initialize)
 	"init 3 3 0 100 99 0 0", "health", "cila", "parse 101 100 1 0", "verify 1", "accept 1", "finish 100 99 0 0 100", "cila", "health", "last",
 }
